@@ -371,6 +371,62 @@ Section WithHash.
     Ok d.
 End WithHash.
 
+(* ---- the response messages that carry an ID Token ---- *)
+(* r_params: every parameter as delivered (JSON values; the id_token parameter is an opaque string naming
+   the JWS); r_idt: what that JWS is, symbolically *)
+Record response := mkResp { r_params : dict; r_idt : option token }.
+
+Definition verified_name (c : pystr) : pystr := (verified_prefix ++ c)%list.
+Definition strip_verified (d : dict) : dict :=
+  fold_left (fun acc c => adel (verified_name c) acc) claims_with_verified d.
+
+Definition opt_param (d : dict) (k : pystr) : res (option pystr) :=
+  match assoc k d with
+  | None => Ok None
+  | Some (VStr s) => Ok (Some s)
+  | Some _ => Unmodelled
+  end.
+
+Definition param_matches (d : dict) (k : pystr) (expected : option pystr) : res unit :=
+  match assoc k d, expected with
+  | Some v, Some e => if pyval_eqb v (VStr e) then Ok tt else Err E_VerificationError
+  | _, _ => Ok tt
+  end.
+
+Section WithHash2.
+  Variable lhash : pystr -> pystr -> pystr.
+
+  (* oidc.AuthorizationResponse.verify on the already deserialised parameters d *)
+  Definition authz_response_verify (kw : kwargs) (d : dict) (idt : option token) (now : Z) : res dict :=
+    _ <- check_required authz_resp_params d ;;
+    _ <- (if has_key (PS "error_description") d || has_key (PS "aud") d then Unmodelled else Ok tt) ;;
+    _ <- param_matches d (PS "client_id") (kw_client_id kw) ;;
+    _ <- param_matches d (PS "iss") (kw_iss kw) ;;
+    let d1 := strip_verified d in
+    match assoc (PS "id_token") d1, idt with
+    | None, _ => Ok d1
+    | Some (VStr _), Some t =>
+        code <- opt_param d1 (PS "code") ;;
+        atok <- opt_param d1 (PS "access_token") ;;
+        v <- verify_id_token lhash kw true code atok t now ;;
+        Ok (aset (verified_name (PS "id_token")) (VDict v) d1)
+    | Some _, _ => Unmodelled
+    end.
+
+  (* oidc.AccessTokenResponse.verify *)
+  Definition token_response_verify (kw : kwargs) (d : dict) (idt : option token) (now : Z) : res dict :=
+    _ <- check_required token_resp_params d ;;
+    _ <- (if has_key (PS "error_description") d then Unmodelled else Ok tt) ;;
+    let d1 := strip_verified d in
+    match assoc (PS "id_token") d1, idt with
+    | None, _ => Ok d1
+    | Some (VStr _), Some t =>
+        v <- verify_id_token lhash kw false None None t now ;;
+        Ok (aset (verified_name (PS "id_token")) (VDict v) d1)
+    | Some _, _ => Unmodelled
+    end.
+End WithHash2.
+
 (* ---- comparison helpers for generated case files ---- *)
 Fixpoint insert_sorted (kv : pystr * pyval) (l : dict) : dict :=
   match l with
@@ -401,3 +457,19 @@ Definition chk_msg_case (c : msg_case) : bool :=
   | Unmodelled, _ => true
   | r, o => res_eqb dict_eqb r o
   end.
+
+(* one response-level message-API case: which class, kwargs, response, now, table, observed message dict *)
+Definition resp_case := (bool * kwargs * response * Z * list (pystr * pystr * pystr) * res dict)%type.
+Definition run_resp_case (c : resp_case) : res dict :=
+  let '(is_authz, kw, r, now, tbl, _) := c in
+  d <- from_dict (if is_authz : bool then authz_resp_params else token_resp_params) (r_params r) [] ;;
+  if is_authz then authz_response_verify (lhash_of tbl) kw d (r_idt r) now
+  else token_response_verify (lhash_of tbl) kw d (r_idt r) now.
+Definition chk_resp_case (c : resp_case) : bool :=
+  let '(_, _, _, _, _, obs) := c in
+  match run_resp_case c, obs with
+  | Unmodelled, _ => true
+  | r, o => res_eqb dict_eqb r o
+  end.
+Definition unmodelled_resp_case (c : resp_case) : bool :=
+  match run_resp_case c with Unmodelled => false | _ => true end.
